@@ -25,7 +25,7 @@ class FusedModel:
         self.adt = adt or FR
         self.f0 = method(facts, T_READ, self.adt, name)
         file = self.f0.file
-        self.f = inline.inlined(facts, self.f0.id, stop=lambda d: facts.fns[d].rec.get("local") and facts.fns[d].file != file, extern_ok=Q.std_small)
+        self.f = inline.inlined(facts, self.f0.id, stop=shared.helper_stop(facts, file), extern_ok=Q.std_small)
         # the slot holding the inner reader: an Option<R>, or an enum of the crate with one variant carrying the reader and one empty variant
         def slot_kind(ty):
             if ty == "std::option::Option<R>":
